@@ -277,9 +277,9 @@ func (ex *Exec) lower(v Val) Val {
 			return Val{T: v.T, L: []string{t}}
 		}
 		t := ex.sc.fresh("iptr", sInt)
-		ex.sc.assert(mkCmp("<", t, "0")) // interior pointers are negative: never nil, never an object ref
+		ex.sc.axiom(mkCmp("<", t, "0")) // interior pointers are negative: never nil, never an object ref
 		for _, other := range ex.lvInternList {
-			ex.sc.assert(mkNot(mkEq(t, other)))
+			ex.sc.axiom(mkNot(mkEq(t, other)))
 		}
 		ex.lvIntern[key] = t
 		ex.lvInternList = append(ex.lvInternList, t)
@@ -295,7 +295,7 @@ func (ex *Exec) lower(v Val) Val {
 			return Val{T: v.T, L: []string{t}}
 		}
 		t := ex.sc.fresh("fn_"+v.Fn.Fn.Name(), sInt)
-		ex.sc.assert(mkCmp(">", t, "0"))
+		ex.sc.axiom(mkCmp(">", t, "0"))
 		ex.fnIntern[key] = t
 		ex.fnBack[t] = v.Fn
 		return Val{T: v.T, L: []string{t}}
